@@ -143,10 +143,14 @@ class Spec(ProgramSpec):
         return adapters.write_request(case[0], case[1], case[2], self.tables)
 
     def impl(self, case):
-        return adapters.impl_write(*case)[0]
+        r = adapters.impl_write(*case)[0]
+        self._last = (case, r)
+        return r
 
     def model(self, case, resp):
-        return resp
+        last = getattr(self, '_last', None)
+        impl = last[1] if last and last[0] is case else adapters.impl_write(*case)[0]
+        return adapters.same_trace(resp, impl)
 
     def oracle(self, case, impl_res):
         res, data = adapters.impl_write(*case)
